@@ -121,7 +121,7 @@ struct WorldQ : World {
   bool queue_empty();
   int spawner_stub(int chan);
   void plant(const Json &op);
-  void finish_c01(); void finish_c03();
+  void finish_c01(); void finish_c03(); void finish_c15();
   bool enabled(const std::string &oracle) const;
   std::set<std::string> oracles_off, oracles_on;
   // C10: configuration in force (what the daemon last read successfully)
